@@ -433,6 +433,50 @@ def discharge(ctx, s, scope=None):
         c = _const_int(ops[1])
         if c is not None and c >= 1:
             return 'constant chunk size %d' % c
+    return _const_layout_discharge(kind, ops)
+
+
+def _const_layout_discharge(kind, ops):
+    """index arithmetic over a buffer of constant length with constant (or phi-of-constants) offsets: decided by folding the constants
+    and by the length polynomials of the views (a symbolic offset that occurs on both sides cancels)"""
+    from . import ilen
+    try:
+        if kind in ('assert:overflow:Mul', 'assert:overflow:Add', 'assert:overflow:Sub') and len(ops) == 2:
+            a, b = ilen.cvals(ops[0]), ilen.cvals(ops[1])
+            if a is not None and b is not None:
+                rs = {(x * y if kind.endswith('Mul') else x + y if kind.endswith('Add') else x - y) for x in a for y in b}
+                if all(0 <= v < 2 ** 32 for v in rs):
+                    return 'operands take finitely many constant values (%s, %s): every result fits' % (sorted(a), sorted(b))
+        if kind == 'index' and len(ops) >= 2:
+            total = ilen.clen(ops[0])
+            rb = ilen.range_bounds(ops[1], ops[0])
+            if rb is not None and ilen.is_const(total):
+                lo, hi = rb
+                n = total.get((), 0)
+                his = {hi.get((), 0)} if ilen.is_const(hi) else None
+                if his is None:
+                    r0 = ilen._strip(ops[1])
+                    endt = None
+                    if r0.tag == 'range':
+                        endt = r0[2]
+                    elif r0.tag == 'adt' and r0[2]:
+                        endt = dict(r0[2]).get('end')
+                    his = ilen.cvals(endt) if endt is not None else None
+                    if his is not None and r0.tag == 'adt' and r0[1].split('::')[-1] == 'RangeToInclusive':
+                        his = {v + 1 for v in his}
+                if his is not None and max(his) <= n and ilen.ge0(ilen.padd(hi, lo, -1)) and ilen.ge0(lo):
+                    return 'range %s within a buffer of constant length %d (start <= end decided on the length polynomials)' % (sorted(his), n)
+        if kind == 'split' and len(ops) == 2:
+            n = ilen.cvals(ops[1])
+            ln = ilen.clen(ops[0])
+            if n is not None and ilen.is_const(ln) and max(n) <= ln.get((), 0) and min(n) >= 0:
+                return 'split point %s within a view of constant length %d' % (sorted(n), ln.get((), 0))
+        if kind == 'copy_len' and len(ops) >= 2:
+            a, b = ilen.clen(ops[0]), ilen.clen(ops[1])
+            if ilen.is_const(a) and a == b:
+                return 'destination view and source both have constant length %d' % a.get((), 0)
+    except ilen.NoLen:
+        return None
     return None
 
 
